@@ -80,6 +80,15 @@ pub struct Tolerate {
 pub const K_DEVICE: &str = "c04/sync-ok-but-differs/device-log-diverged";
 pub const K_REPEAT: &str = "c04/diverged/event-hash-repeats-within-a-log";
 pub const K_NEWFOLDER: &str = "c04/sync-ok-but-differs/resolved-by-later-sync";
+pub const K_REKEY: &str = "c04/folder-undecryptable/concurrent-rewrite-and-password-change";
+
+/// One device changed a folder password offline while another device rewrote a folder log
+/// (compaction or another password change) offline.
+pub fn concurrent_rekey(c: &ConvCase) -> bool {
+    let rekey = |o: &Vec<Edit>| o.iter().any(|e| matches!(e, Edit::ChangeFolderPassword { .. }));
+    let rewrite = |o: &Vec<Edit>| o.iter().any(|e| matches!(e, Edit::ChangeFolderPassword { .. } | Edit::CompactFolder { .. }));
+    (0..c.offline.len()).any(|i| rekey(&c.offline[i]) && (0..c.offline.len()).any(|j| j != i && rewrite(&c.offline[j])))
+}
 
 pub fn tolerate_for(shard: &Shard, case_hash: u64) -> Tolerate {
     if shard.strict {
@@ -126,6 +135,14 @@ pub async fn run_conv_case(c: &ConvCase, tol: Tolerate) -> (ConvOutcome, CheckRe
             }
         }
     }
+    // the folder key lives in the identity log, the folder content in the folder log; the two
+    // are merged independently, so concurrent rewrites of one folder can pair the key of one
+    // device with the log of the other
+    if let Err(f) = &r {
+        if f.signature == "sync/served-folder-undecryptable" && concurrent_rekey(c) {
+            r = Err(Failure::new(K_REKEY, f.message.clone()));
+        }
+    }
     if r.is_ok() {
         if let Some(f) = out.deferred.take() {
             r = Err(f);
@@ -136,7 +153,7 @@ pub async fn run_conv_case(c: &ConvCase, tol: Tolerate) -> (ConvOutcome, CheckRe
 
 struct Stop;
 
-fn has_repeated_hash(l: &[Rec]) -> bool {
+pub fn has_repeated_hash(l: &[Rec]) -> bool {
     let mut seen = BTreeSet::new();
     l.iter().any(|r| !seen.insert(r.commit))
 }
@@ -498,14 +515,29 @@ pub fn edit_strategy() -> impl Strategy<Value = Edit> {
     ]
 }
 
+/// The plain edit mix plus moves between folders and the two log rewrites (compaction,
+/// folder password change).
+pub fn edit_strategy_rewrites() -> impl Strategy<Value = Edit> {
+    prop_oneof![
+        12 => edit_strategy(),
+        2 => (prop_oneof![Just(0u16), any::<u16>()], any::<u16>()).prop_map(|(sec, folder)| Edit::MoveSecret { sec, folder }),
+        1 => any::<u16>().prop_map(|folder| Edit::CompactFolder { folder }),
+        1 => (any::<u16>(), word()).prop_map(|(folder, word)| Edit::ChangeFolderPassword { folder, word }),
+    ]
+}
+
 pub fn case_strategy(max_offline: usize) -> impl Strategy<Value = ConvCase> {
+    case_strategy_with(max_offline, edit_strategy().boxed())
+}
+
+pub fn case_strategy_with(max_offline: usize, edits: BoxedStrategy<Edit>) -> impl Strategy<Value = ConvCase> {
     (
         crate::engine_acct::cfg_strategy(),
         any::<bool>(),
-        proptest::collection::vec(edit_strategy(), 0..4),
+        proptest::collection::vec(edits.clone(), 0..4),
         proptest::collection::vec(0u8..5, 2),
         prop_oneof![3 => Just(2usize), 1 => Just(3usize)],
-        proptest::collection::vec(proptest::collection::vec(edit_strategy(), 0..max_offline), 3),
+        proptest::collection::vec(proptest::collection::vec(edits, 0..max_offline), 3),
         proptest::collection::vec(0u8..3, 0..4),
     )
         .prop_map(|(cfg, server_db, pre, skews, ndev, mut offline, order)| {
@@ -540,6 +572,18 @@ pub fn fill_info(info: &mut CaseInfo, c: &ConvCase, out: &ConvOutcome) {
 fn run(shard: &Shard, rep: &mut Report) {
     let t = shard.tier;
     drive(shard, rep, "convergence", shard.share(t.pick(300, 5_000)), case_strategy(7), |c| check_c04(c, tolerate_for(shard, hash_of(c))));
+    drive(shard, rep, "convergence-rewrites", shard.share(t.pick(200, 4_000)), case_strategy_with(6, edit_strategy_rewrites().boxed()), |c| {
+        let (mut info, r) = check_c04(c, tolerate_for(shard, hash_of(c)));
+        for e in c.pre.iter().chain(c.offline.iter().flatten()) {
+            match e {
+                Edit::MoveSecret { .. } => info.class("edit/move-secret"),
+                Edit::CompactFolder { .. } => info.class("edit/compact-folder"),
+                Edit::ChangeFolderPassword { .. } => info.class("edit/change-folder-password"),
+                _ => {}
+            }
+        }
+        (info, r)
+    });
 }
 
 fn replay(_shard: &Shard, _sub: &str, case: &Value) -> CheckResult {
